@@ -40,7 +40,12 @@ def specs(draw):
     if cls == "PerturbedDroplet3DAxisSym":
         pos[0] = pos[1] = 0.0
     # raw amplitude pattern: several simultaneously non-zero modes
-    raw = [draw(st.floats(-1, 1, **finite)) if draw(st.integers(0, 2)) else 0.0 for _ in range(n_amp)]
+    if draw(st.booleans()):
+        raw = [draw(st.floats(-1, 1, **finite)) if draw(st.integers(0, 2)) else 0.0 for _ in range(n_amp)]
+    else:  # sparse: one to three non-zero modes anywhere, so that whole degrees are skipped
+        raw = [0.0] * n_amp
+        for i in draw(st.lists(st.integers(0, n_amp - 1), min_size=1, max_size=3, unique=True)):
+            raw[i] = draw(st.sampled_from([-1.0, 1.0])) * draw(st.floats(0.2, 1, **finite))
     if not any(raw):
         raw[draw(st.integers(0, n_amp - 1))] = 1.0
     if cls == "PerturbedDroplet2D":
@@ -199,7 +204,13 @@ class C13(Property):
             if np.all(rq > 0.2 * R0):
                 drq = r1  # derivative of the documented series (equality with interface_distance is checked above)
                 S_true = float(np.sum(np.sqrt(rq**2 + drq**2))) * (2 * math.pi / 4096)
-                ctx.require(abs(d.surface_area - S_true) <= 1e-6 * S_true, "2d:surface", f"surface_area {d.surface_area} vs quadrature {S_true}")
+                # the library documents a "simple approximation to the integral"; it is allowed twice the discretisation error
+                # of a 256-node periodic rule (16 x coarser than the reference), which only exceeds 1e-6 for very rough outlines
+                S_256 = float(np.sum(np.sqrt(rq[::16] ** 2 + drq[::16] ** 2))) * (2 * math.pi / 256)
+                tol_S = max(1e-6 * S_true, 2 * abs(S_256 - S_true))
+                if tol_S > 1e-6 * S_true:
+                    ctx.cls("2d:surface-tolerance-widened")
+                ctx.require(abs(d.surface_area - S_true) <= tol_S, "2d:surface", f"surface_area {d.surface_area} vs quadrature {S_true} (tolerance {tol_S})")
             # volume setter round trip keeps the shape
             d2 = d.copy()
             d2.volume = 2.5 * V_true
